@@ -114,7 +114,7 @@ NOT_COVERED = {
             'decode_regular tail (names / sources / contents / file / debug id / ignore list conversions)', 'serde_json layer'],
     'C02': ['decode_common kind dispatch', 'lenient names/file/sources conversions, debug_id precedence'],
     'C03': ['as_raw_sourcemap field plumbing and the serde skip_serializing_if attributes', 'index-map sections', '"an independent decoder reads it back" needs the mapping-level inverse lemma'],
-    'C07': ['range bitfield WRITER (serialize_range_mappings / encode_rmi): not under contract yet; design-phase replay shows defects D3/D4/D8 there'],
+    'C07': ['spec-level lemma that the reference bitfield reader inverts the reference writer (both sides are proved equal to their reference, the inverse lemma itself is not yet written)'],
     'C11': ['canonical-text direction encode(decode(s)) == s'],
     'C12': ['detection predicates is_sourcemap / is_sourcemap_slice wiring', 'decode_data_url'],
     'C13': ['"serialisation writes raw names plus root" (as_raw_sourcemap)', 'strip_prefixes'],
